@@ -363,6 +363,12 @@ class Ownership:
         for g in cs.globals:
             if not any(x.text() == g.text() and x.fn == g.fn for x in s.globals):
                 s.globals.append(Site(g.fn, g.node, g.what, g.target, "<global>", (qual,) + g.chain))
+        # a callee's writes to pre-existing objects whose owner could not be named stay what they are for the caller
+        for st in cs.mutates.get("<borrowed>", []):
+            lst0 = s.mutates.setdefault("<borrowed>", [])
+            site0 = Site(st.fn, st.node, st.what, st.target, "<borrowed>", (qual,) + st.chain)
+            if not any(x.text() == site0.text() and x.fn == site0.fn for x in lst0):
+                lst0.append(site0)
         for p, sites in cs.mutates.items():
             for val in bound.get(p, []):
                 if not isinstance(val, Sym):
